@@ -500,6 +500,17 @@ class Emitter:
             if spec.kind == 'const' and re.search(r':\s*&str\b', text):
                 text = re.sub(r':\s*&str\b', ": &'static str", text, count=1)
                 self.rules.add('R8')
+            if spec.kind == 'const' and c.ensures:
+                # R9: a const whose initialiser calls an exec `const fn` becomes a Verus `exec const` with a contract;
+                # the initialiser expression is unchanged
+                mm = re.search(r'const\s+(\w+)\s*:\s*([^=]+?)\s*=\s*(.*);\s*$', text, re.S)
+                if not mm:
+                    raise ExtractError('%s: cannot parse const for R9' % spec.name)
+                pre = text[:mm.start()]
+                ens = clause_block('ensures', c.ensures, spec.name, 'post')
+                text = '%s//@@begin %s\nexec const %s: %s\n%s{\n    %s\n}\n//@@end %s' % (pre, spec.name, mm.group(1), mm.group(2), ens, mm.group(3).strip(), spec.name)
+                self.rules.add('R9')
+                self.register_fn(spec.name, c, rel, it.line_of(it.kw))
             if c.attrs:
                 text = '\n'.join(c.attrs) + '\n' + text
             return '// <<< %s %s  (%s:%d)\n%s\n' % (spec.kind, spec.name, rel, it.line_of(it.kw), text)
@@ -519,6 +530,16 @@ class Emitter:
                 text = re.sub(r'\bfn\s+' + re.escape(path[0]) + r'\b', 'fn ' + c.rename, text, count=1)
             self.register_fn(fnid, c, rel, it.line_of(it.kw))
             return '// <<< fn %s  (%s:%d)\n%s\n' % (fnid, rel, it.line_of(it.kw), self.render_fn(text, c, fnid))
+        if spec.kind == 'stub':
+            # R7: body replaced by an opaque stub (used for `fresh_label`, whose body touches a `static mut`)
+            it = s.find('fn', spec.name)
+            text = strip_docs(it.text)
+            head = text[:text.index('{')].rstrip()
+            self.rules.add('R7')
+            c.external_body = True
+            self.register_fn(spec.ident, c, rel, it.line_of(it.kw))
+            stub = head + ' {\n    unimplemented!()\n}\n'
+            return '// <<< stub fn %s  (%s:%d)  body replaced by an opaque stub (R7)\n%s\n' % (spec.ident, rel, it.line_of(it.kw), self.render_fn(stub, c, spec.ident))
         if spec.kind in ('method', 'traitmethod'):
             if spec.kind == 'method':
                 blk = s.find('impl', spec.impl_header)
